@@ -53,6 +53,9 @@ def stsc_guard_rule(prog, run):
 
 
 def check(prog, run):
+    run.rule("R6", "stts/ctts describe as many samples as stsz/stco: the run-length builders add every element to a run (C03.R6 instances)")
+    from . import c03
+    c03.rle_rule(prog, run, "R6")
     run.rule("R1", "box constructor: size field == 8 + len(payload) == emitted width; header is size ++ fourcc")
     run.rule("R2", "containers tile: container payloads hold child boxes only (after the prescribed full-box / sample-entry prefix)")
     run.rule("R3", "grammar: per configuration, each container has its mandatory children exactly once, optional ones at most once, nothing else; top-level structure of file / init segment / media segment")
